@@ -567,7 +567,9 @@ fn c12_outcome(rng: &mut Rng, kind: &str, which: usize, tid: u16, unit: u8) -> S
         4 => {
             if kind == "tcp" && rng.chance(1, 3) {
                 let mut f = frame(kind, tid, unit, &good_pdu);
-                f[3] = 0x09; // protocol id
+                let pid = rng.nonzero_be16(); // protocol id
+                f[2] = pid[0];
+                f[3] = pid[1];
                 f
             } else if kind == "tcp" && rng.bool() {
                 // well-framed, but the PDU breaks off early or is damaged in some other way: every
